@@ -7,6 +7,7 @@ import (
 	"sort"
 	"strings"
 	"sync"
+	"sync/atomic"
 
 	"verif/kit"
 
@@ -215,13 +216,19 @@ func (x *run) exec(o Op) {
 		}
 	case "closeN":
 		if o.Scope != 0 && usable(o.Scope) {
+			// spin barrier: all callers enter Close within nanoseconds of each other
 			var wg sync.WaitGroup
-			start := make(chan struct{})
+			var arrived atomic.Int32
 			for i := 0; i < o.N; i++ {
 				wg.Add(1)
-				go func() { defer wg.Done(); <-start; x.R.CloseScope(o.Scope) }()
+				go func() {
+					defer wg.Done()
+					arrived.Add(1)
+					for arrived.Load() < int32(o.N) {
+					}
+					x.R.CloseScope(o.Scope)
+				}()
 			}
-			close(start)
 			wg.Wait()
 			x.Stats.Closes++
 		}
